@@ -111,11 +111,21 @@ def outcome_class(step):
 
 
 DIRECTED_SRC = """
-from spec_classes import spec_class, spec_property, Alias
+from typing import Dict, List
+from spec_classes import spec_class, spec_property, Alias, Attr
+from spec_classes.types import KeyedList
+
+@spec_class(key="k", frozen={frozen})
+class HItem:                 # keyed element whose key is not a constructor parameter
+    k: str = Attr(default="none", init=False)
+    v: int = 0
 
 @spec_class(frozen={frozen})
 class P:
     x: int = 1
+    hitems: List[HItem] = []
+    hmaps: Dict[str, HItem] = {{}}
+    hkls: KeyedList[HItem, str] = []
     total: int          # managed attribute stored through a property with a setter
     al: int = Alias("x", passthrough=True)   # managed attribute stored through an alias descriptor
 
@@ -139,7 +149,7 @@ def directed_descriptor_cases(ctx):
         warnings.simplefilter("ignore")
         F = cg.exec_module(DIRECTED_SRC.format(frozen=True), prefix="verif_c07d").__dict__["P"]
         T = cg.exec_module(DIRECTED_SRC.format(frozen=False), prefix="verif_c07d").__dict__["P"]
-    view = lambda p: (p.x, p.total, p.al)  # noqa: E731
+    view = lambda p: (p.x, p.total, p.al, [(i.k, i.v) for i in p.hitems], [(k, i.k, i.v) for k, i in p.hmaps.items()], [(i.k, i.v) for i in p.hkls])  # noqa: E731
     ops = [
         ("with_total(5)", lambda p, ip: p.with_total(5, _inplace=ip)),
         ("transform_total(inc)", lambda p, ip: p.transform_total(lambda v: v + 1, _inplace=ip)),
@@ -149,6 +159,12 @@ def directed_descriptor_cases(ctx):
         ("update(al=4, x=2)", lambda p, ip: p.update(al=4, _inplace=ip)),
         ("with_x(9)", lambda p, ip: p.with_x(9, _inplace=ip)),
         ("deepcopy", lambda p, ip: copy.deepcopy(p)),
+        # elements of a frozen class completed by the helper after construction (bare key -> keyed element)
+        ("with_hitem('a')", lambda p, ip: p.with_hitem("a", _inplace=ip)),
+        ("with_hitem('a', v=2)", lambda p, ip: p.with_hitem("a", v=2, _inplace=ip)),
+        ("with_hitems(['a', 'b'])", lambda p, ip: p.with_hitems(["a", "b"], _inplace=ip)),
+        ("with_hmap('m', 'a')", lambda p, ip: p.with_hmap("m", "a", _inplace=ip)),
+        ("with_hkl('a')", lambda p, ip: p.with_hkl("a", _inplace=ip)),
     ]
     for label, fn in ops:
         for ip in (False, True):
